@@ -48,7 +48,56 @@ func corpus() []corpusCase {
 	}
 	two := cycle.Job{Name: "g", Queue: "q1", Priority: 50, MinMember: 2, AgeMinutes: 5, Pods: []core.PodSpec{
 		{Name: "g-0", Cpu: 100, Mem: 1 << 20, Gpus: 1, Status: pend}, {Name: "g-1", Cpu: 100, Mem: 1 << 20, Gpus: 1, Status: pend}}}
-	return []corpusCase{
+	// evict, un-evict, evict, un-evict of ONE pod inside one statement (the second un-eviction has to skip the
+	// stale first evict entry): by Unevict and by Pipeline onto the pod's own node and devices, for a whole-GPU and
+	// a fractional pod, followed by nothing / Commit / Rollback / Discard, and with other operations in between
+	ev := func(p string) cmdSpec { return cmdSpec{Kind: "evict", Pod: p} }
+	un := func(p string) cmdSpec { return cmdSpec{Kind: "unevict", Pod: p} }
+	back := func(p, n string, gs ...string) cmdSpec {
+		return cmdSpec{Kind: "pipeline", Pod: p, Node: n, HasGroups: len(gs) > 0, Groups: gs}
+	}
+	cp, commit, discard := cmdSpec{Kind: "checkpoint"}, cmdSpec{Kind: "commit"}, cmdSpec{Kind: "discard"}
+	rb := func(i int) cmdSpec { return cmdSpec{Kind: "rollback", Cp: -i} }
+	twice := func() cycle.Cluster {
+		return base(n2, job1("a", whole(run, "n1", 1)), job1("f", frac(run, "n1", "n1-G1")), job1("h", frac(run, "n1", "n1-G1")),
+			job1("c", whole(pend, "", 1)))
+	}
+	var again []corpusCase
+	for _, v := range []struct {
+		name string
+		pod  string
+		u    func() cmdSpec
+	}{
+		{"unevict-whole", "a-0", func() cmdSpec { return un("a-0") }},
+		{"unevict-fraction", "f-0", func() cmdSpec { return un("f-0") }},
+		{"pipeline-own-node-whole", "a-0", func() cmdSpec { return back("a-0", "n1") }},
+		{"pipeline-own-node-fraction", "f-0", func() cmdSpec { return back("f-0", "n1", "n1-G1") }},
+	} {
+		four := func() []cmdSpec { return []cmdSpec{ev(v.pod), v.u(), ev(v.pod), v.u()} }
+		again = append(again,
+			corpusCase{name: "L1-twice-" + v.name, wf: true, c: twice(), cmds: four()},
+			corpusCase{name: "L2-twice-commit-" + v.name, wf: true, c: twice(), cmds: append(four(), commit)},
+			corpusCase{name: "L3-twice-discard-" + v.name, wf: true, c: twice(), cmds: append(four(), discard)},
+			corpusCase{name: "L4-twice-rollback-" + v.name, wf: true, c: twice(), cmds: append(append([]cmdSpec{cp}, four()...), rb(1), commit)},
+			corpusCase{name: "L5-thrice-then-evicted-commit-" + v.name, wf: true, c: twice(),
+				cmds: append(append(four(), ev(v.pod), v.u(), ev(v.pod)), commit)},
+			corpusCase{name: "L6-twice-interleaved-" + v.name, wf: true, c: twice(),
+				cmds: []cmdSpec{ev(v.pod), ev("h-0"), back("c-0", "n2"), v.u(), cp, ev(v.pod), un("h-0"), v.u(), ev("h-0"), commit}},
+			corpusCase{name: "L7-second-unevict-rolled-back-" + v.name, wf: true, c: twice(),
+				cmds: []cmdSpec{ev(v.pod), v.u(), ev(v.pod), cp, v.u(), rb(1), commit}},
+			corpusCase{name: "L8-first-unevict-rolled-back-then-twice-" + v.name, wf: true, c: twice(),
+				cmds: []cmdSpec{ev(v.pod), cp, v.u(), rb(1), v.u(), ev(v.pod), v.u(), cp, ev("h-0"), rb(2), discard}},
+		)
+	}
+	again = append(again,
+		corpusCase{name: "L9-twice-mixed-unevict-then-pipeline", wf: true, c: twice(),
+			cmds: []cmdSpec{ev("f-0"), un("f-0"), ev("f-0"), back("f-0", "n1", "n1-G1"), ev("a-0"), back("a-0", "n1"), ev("a-0"), un("a-0"), commit}},
+		corpusCase{name: "L10-twice-then-moved", wf: true, c: twice(),
+			cmds: []cmdSpec{ev("f-0"), un("f-0"), ev("f-0"), un("f-0"), ev("f-0"), back("f-0", "n1", "x1"), ev("a-0"), un("a-0"), ev("a-0"), back("a-0", "n2"), commit}},
+		corpusCase{name: "L11-twice-evict-failure", wf: true, c: twice(), fails: map[int]bool{0: true},
+			cmds: []cmdSpec{ev("a-0"), un("a-0"), ev("a-0"), un("a-0"), ev("a-0"), ev("f-0"), commit}},
+	)
+	return append(again, []corpusCase{
 		{name: "W1-device-guard", wf: true,
 			c: base(n1, job1("a", frac(run, "n1", "n1-G1")), job1("b", whole(rel, "n1", 1)), job1("c", whole(run, "n1", 1)), job1("d", whole(pend, "", 2))),
 			cmds: []cmdSpec{{Kind: "pipeline", Pod: "d-0", Node: "n1"}, {Kind: "checkpoint"}, {Kind: "evict", Pod: "a-0"},
@@ -92,5 +141,5 @@ func corpus() []corpusCase {
 			cmds: []cmdSpec{{Kind: "evict", Pod: "a-0"}, {Kind: "checkpoint"}, {Kind: "evict", Pod: "b-0"}, {Kind: "pipeline", Pod: "c-0", Node: "n1"},
 				{Kind: "pipeline", Pod: "a-0", Node: "n1", HasGroups: true, Groups: []string{"n1-G1"}}, {Kind: "checkpoint"},
 				{Kind: "pipeline", Pod: "b-0", Node: "n2"}, {Kind: "rollback", Cp: -2}, {Kind: "rollback", Cp: -1}, {Kind: "commit"}}},
-	}
+	}...)
 }
